@@ -27,6 +27,13 @@ class Env:
             return v if isinstance(v, int) else None
         if k == 'cast':
             return self.const(e[1], depth)
+        if k == 'call' and not e[2] and depth < 3:
+            f = self.prog.fn(e[1], required=False)
+            if f is not None:
+                r = ex(self.prog, f).local(0)
+                if r[0] != 'var':
+                    return self.const(r, depth + 1)
+            return None
         if k == 'bin' and e[1] in ('Add', 'Sub', 'Mul'):
             a, b = self.const(e[2], depth), self.const(e[3], depth)
             if a is None or b is None:
